@@ -21,7 +21,7 @@ IMPORTS = ["unit_scaling.optim", "unit_scaling.parameter"]
 REQUIRED_MONITORS = ["contract:scaled_parameters", "contract:scaled_parameters:from-optimizer-constructor", "sanitizer:tensor-lr-checked",
                      "alias:tensor-lr-pairs-checked", "decay:steps-checked", "decay:lr-times-wd-checked"]
 REQUIRED_REACH = {"optim.py": ["scaled_parameters", "SGD.__init__", "Adam.__init__", "AdamW.__init__"]}
-MIN_NONTRIVIAL = {"quick": 400, "thorough": 20000}
+MIN_NONTRIVIAL = {"quick": 400, "thorough": 30000}
 TAGS = ["weight", "bias", "norm", "output"]
 
 
